@@ -1,5 +1,7 @@
 package namematcher
 
+import "strings"
+
 func VerifSelf_Matcher() uint64 {
 	var sum uint64
 	pats := []string{"", "^", "$", "^$", "torproject.net$", "^snowflake.torproject.net$", "snowflake.torproject.net", "^a", "net$", "example.com"}
@@ -23,6 +25,27 @@ func VerifSelf_Matcher() uint64 {
 			}
 			sum %= 1000000007
 		}
+	}
+	return sum
+}
+
+func VerifSelf_Strings() uint64 {
+	var sum uint64
+	for _, d := range []string{"a-b-c.com", "", "--", "a.b", "xn--abc.example", "no-dots", "a--b"} {
+		r := strings.Replace(strings.Replace(d, "-", "--", -1), ".", "-", -1)
+		sum = sum*131 + uint64(len(r))
+		for i := 0; i < len(r); i++ {
+			sum = sum*31 + uint64(r[i])
+		}
+		sum %= 1000000007
+		if strings.HasSuffix(r, "com") {
+			sum += 5
+		}
+		sum += uint64(strings.Count(r, "-")) + uint64(strings.Index(r, "b")+1) + uint64(strings.LastIndexByte(r, '-')+1)
+		var sb strings.Builder
+		sb.WriteString(d)
+		sb.WriteByte('!')
+		sum += uint64(len(sb.String()))
 	}
 	return sum
 }
